@@ -34,6 +34,7 @@ const (
 
 type vhPEFile struct {
 	x         []byte
+	gap       int // bytes between the end of the headers (SizeOfHeaders) and the first section
 	bodyLen   int // section body
 	overlay   int // bytes after the section (unsigned files only)
 	certStart int // 0 if unsigned
@@ -45,8 +46,12 @@ type vhPEFile struct {
 // an optional overlay, and optionally an existing certificate table at the
 // (8-aligned) end of the file. Every byte not fixed by the layout is symbolic.
 func vhPE(signed bool, body, overlay, oldSig int) vhPEFile {
-	n := vhHdrEnd + body + overlay
-	f := vhPEFile{bodyLen: body, overlay: overlay}
+	return vhPEGap(signed, 0, body, overlay, oldSig)
+}
+
+func vhPEGap(signed bool, gap, body, overlay, oldSig int) vhPEFile {
+	n := vhHdrEnd + gap + body + overlay
+	f := vhPEFile{gap: gap, bodyLen: body, overlay: overlay}
 	if signed {
 		pad := (8 - n%8) % 8
 		f.certStart = n + pad
@@ -68,7 +73,7 @@ func vhPE(signed bool, body, overlay, oldSig int) vhPEFile {
 	vhAssume(le32(vhOptStart+92) == 16)                   // NumberOfRvaAndSizes
 	vhAssume(le32(vhDD4Off) == uint32(f.certStart) && le32(vhDD4Off+4) == uint32(f.certSize))
 	vhAssume(le32(vhSecTbl+16) == uint32(body))           // SizeOfRawData
-	vhAssume(le32(vhSecTbl+20) == vhHdrEnd)               // PointerToRawData
+	vhAssume(le32(vhSecTbl+20) == uint32(vhHdrEnd+gap))   // PointerToRawData
 	if signed {
 		vhAssume(le32(f.certStart) == uint32(f.certSize)) // WIN_CERTIFICATE.dwLength
 	}
@@ -87,7 +92,8 @@ func vhPEScenario(prop string) {
 	if !signed {
 		overlay = vhConcretize(vhInt("overlay-bytes", 0, 2), 4)
 	}
-	f := vhPE(signed, body, overlay, 8)
+	gap := vhConcretize(vhInt("header-gap-bytes", 0, 1), 2)
+	f := vhPEGap(signed, gap, body, overlay, 8)
 	x := f.x
 	dg, err := DigestPE(bytes.NewReader(x), crypto.SHA256, false)
 	if prop == "C01" {
@@ -113,7 +119,7 @@ func vhPEScenario(prop string) {
 		return
 	}
 	vhReach("signed")
-	payloadEnd := vhHdrEnd + body + overlay // end of everything that is not signature
+	payloadEnd := vhHdrEnd + gap + body + overlay // end of everything that is not signature
 	tblStart := vhPad8(payloadEnd)
 	tblLen := 8 + vhPad8(len(sig))
 	switch prop {
@@ -192,7 +198,8 @@ func VH_C05_PEImageHashSpec() {
 	if !signed {
 		overlay = vhConcretize(vhInt("overlay-bytes", 0, 2), 4)
 	}
-	f := vhPE(signed, body, overlay, 8)
+	gap := vhConcretize(vhInt("header-gap-bytes", 0, 2), 4)
+	f := vhPEGap(signed, gap, body, overlay, 8)
 	x := f.x
 	dg, err := DigestPE(bytes.NewReader(x), crypto.SHA256, false)
 	vhAssume(err == nil)
@@ -216,14 +223,18 @@ func VH_C05_PEImageHashSpec() {
 // image digest (or makes the parser reject the file).
 func VH_C02_PETamper() {
 	body := vhConcretize(vhInt("section-bytes", 1, 2), 4)
-	f := vhPE(true, body, 0, 8)
+	gap := vhConcretize(vhInt("header-gap-bytes", 0, 2), 4)
+	f := vhPEGap(true, gap, body, 0, 8)
 	x := f.x
 	dx, err := DigestPE(bytes.NewReader(x), crypto.SHA256, false)
 	vhAssume(err == nil)
 	// positions sampled from every region of the protected set; bytes of the
 	// layout fields themselves (e_lfanew, section count, header sizes, section
 	// pointer) multiply parser paths and are tried in the thorough tier only
-	cands := []int{2, vhPEStart + 4, vhPEStart + 8, vhOptStart + 16, vhCksumOff - 1, vhCksumOff + 4, vhDD4Off - 1, vhDD4Off + 8, vhSecTbl, vhSecTbl + 39, vhHdrEnd, vhHdrEnd + body - 1}
+	cands := []int{2, vhPEStart + 4, vhPEStart + 8, vhOptStart + 16, vhCksumOff - 1, vhCksumOff + 4, vhDD4Off - 1, vhDD4Off + 8, vhSecTbl, vhSecTbl + 39, vhHdrEnd, vhHdrEnd + gap, vhHdrEnd + gap + body - 1}
+	if gap > 1 {
+		cands = append(cands, vhHdrEnd+gap-1)
+	}
 	if vhTier() > 0 {
 		cands = append(cands, 0, vhPEStart, vhPEStart+6, vhOptStart, vhOptStart+92, vhSecTbl+16)
 	}
